@@ -1910,7 +1910,9 @@ class MatlabWrapper(CheckMixin, FormatMixin):
         modules = {}
         for file in files:
             with open(file, 'r') as f:
-                content += f.read()
+                # Separate the files so that a trailing `//` comment or token
+                # of one file does not run into the first line of the next.
+                content += f.read() + "\n"
 
         # Parse the contents of the interface file
         parsed_result = parser.Module.parseString(content)
